@@ -26,6 +26,8 @@ type Schema struct {
 }
 
 // Op: {"op":"sync","c":..,"schemas":[..]} | {"op":"acq","c":..,"n":..,"id":k} | {"op":"rel","of":k}
+// | {"op":"reset","c":..,"mode":..} = UpstreamLimiter.ResetLimiter(mode), what ClusterInfo.Sync calls when the
+// GlobalRateLimiter gate flips (no client sets: the local limiter stays in force in every mode)
 // ("of" = the "id" of the arriving request that now finishes; ids need not be dense).
 type Op struct {
 	Op      string   `json:"op"`
@@ -34,6 +36,7 @@ type Op struct {
 	Schemas []Schema `json:"schemas,omitempty"`
 	Id      int      `json:"id,omitempty"`
 	Of      int      `json:"of,omitempty"`
+	Mode    string   `json:"mode,omitempty"` // reset: the limiter mode (hex): local | remote | anything
 }
 
 type HistCase struct {
@@ -153,6 +156,12 @@ func runImplHist(h HistCase) (outs []Out, tbAns map[int]bool) {
 				spec.Schemas = append(spec.Schemas, s.real())
 			}
 			msg, panicked := rig.Recover(func() { get(rig.UnHex(op.C)).Sync(spec) })
+			if panicked {
+				return append(outs, Out{K: "panic", Msg: msg}), tbAns
+			}
+			outs = append(outs, Out{K: "synced"})
+		case "reset":
+			msg, panicked := rig.Recover(func() { get(rig.UnHex(op.C)).ResetLimiter(rig.UnHex(op.Mode)) })
 			if panicked {
 				return append(outs, Out{K: "panic", Msg: msg}), tbAns
 			}
@@ -335,6 +344,8 @@ func wireOps(h HistCase, tbAns map[int]bool) []map[string]interface{} {
 		switch op.Op {
 		case "sync":
 			ops = append(ops, map[string]interface{}{"op": "sync", "c": op.C, "schemas": normSchemas(op.Schemas)})
+		case "reset":
+			ops = append(ops, map[string]interface{}{"op": "reset", "c": op.C, "mode": op.Mode})
 		case "acq":
 			tb, ok := tbAns[op.Id]
 			if !ok {
@@ -379,6 +390,13 @@ func runHist(c *rig.Ctx, h HistCase, record bool) bool {
 		return true
 	}
 	outs, tbAns := runImplHist(h)
+	return judgeAndCompare(c, h, outs, tbAns, fail)
+}
+
+// judgeAndCompare: the judge (Lean + Go twin) on the real code's answers `outs` to history h, then the
+// correspondence with the model. Shared by the histories driven through UpstreamLimiter (hist) and through
+// ClusterInfo (cinfo, translated to the same op language).
+func judgeAndCompare(c *rig.Ctx, h HistCase, outs []Out, tbAns map[int]bool, fail func(kind, class, what string, impl, model interface{}) bool) bool {
 	// judge on the real code's answers (Go twin; the Lean judge is consulted below)
 	v := judgeHist(h, outs)
 	var m struct {
@@ -648,6 +666,15 @@ func genHistCase(c *rig.Ctx) HistCase {
 			}
 			cur[cl] = list
 			h.Ops = append(h.Ops, Op{Op: "sync", C: rig.Hex(cl), Schemas: append([]Schema{}, list...)})
+		case r < 24:
+			// a limiter-mode switch, as ClusterInfo.Sync does when the GlobalRateLimiter gate flips: ResetLimiter(mode),
+			// usually followed by the Sync of the unchanged schema list
+			cl := pickC()
+			mode := rig.Pick(c.Rng, []string{"remote", "local", "remote", "local", "", "bogus"})
+			h.Ops = append(h.Ops, Op{Op: "reset", C: rig.Hex(cl), Mode: rig.Hex(mode)})
+			if c.Rng.Intn(4) > 0 {
+				h.Ops = append(h.Ops, Op{Op: "sync", C: rig.Hex(cl), Schemas: append([]Schema{}, cur[cl]...)})
+			}
 		case r < 70:
 			cl, name := pickC(), pickN()
 			if l := cur[cl]; len(l) > 0 && c.Rng.Intn(20) < 17 {
@@ -696,6 +723,12 @@ func histFeatures(h HistCase, outs []Out) (nontrivial bool, list []string) {
 			break
 		}
 		switch op.Op {
+		case "reset":
+			for kk, n := range inflight {
+				if kk.c == op.C && n > 0 {
+					feats["mode-switch-inflight"] = true
+				}
+			}
 		case "sync":
 			old := conf[op.C]
 			nw := map[string]Schema{}
@@ -742,7 +775,7 @@ func histFeatures(h HistCase, outs []Out) (nontrivial bool, list []string) {
 		}
 	}
 	var l []string
-	for _, f := range []string{"refused", "resize-inflight", "typechange-inflight", "delete-inflight", "dup", "panic"} {
+	for _, f := range []string{"refused", "resize-inflight", "typechange-inflight", "delete-inflight", "mode-switch-inflight", "dup", "panic"} {
 		if feats[f] {
 			l = append(l, f)
 		}
